@@ -119,6 +119,17 @@ theorem scram_accepts_unextended_nonce (C : Crypto) (cr : Cred) (s : ScramSt) (s
   rw [scram_step1_ok C cr s sf hstep hp hs hi]
   rfl
 
+/-- **Today's code ignores the reserved attribute `m=`** (RFC 5802 §5.1: "its presence in a client or a server message
+MUST cause authentication failure"): the server-first message `m=e,r=xy,s=QQ==,i=1` is answered.  Low severity. -/
+theorem C06_defect_scram_reserved_m_accepted :
+    ¬ ∀ (C : Crypto) (cr : Cred) (s : ScramSt) (sf : Bytes), s.step = 1 → (∃ p ∈ parseGS2 sf, p.1 = 109) →
+        scramStep C cr s sf = (s, none) := by
+  intro h
+  have := h toyCrypto toyCred (scramSt1 toyCred) [109, 61, 101, 44, 114, 61, 120, 121, 44, 115, 61, 81, 81, 61, 61, 44, 105, 61, 49] rfl
+    (by decide)
+  revert this
+  decide
+
 /-- **Invalid parameters are refused** (as coded): a salt that decodes to nothing, or an iteration count whose
 `toInt` value is below 1. -/
 theorem scram_rejects_bad_params (C : Crypto) (cr : Cred) (s : ScramSt) (sf : Bytes) (hstep : s.step = 1)
@@ -151,8 +162,11 @@ theorem scram_rejects_bad_signature (C : Crypto) (cr : Cred) (s : ScramSt) (sfin
     ∧ ∀ later, scramStep C cr (scramStep C cr s sfin).1 later = ((scramStep C cr s sfin).1, none) := by
   simp [scramStep, hstep, h]
 
-/-- **The ghost flag means what it says**: `verified` can only become true by a step-2 comparison of the
-presented `v=` value with the expected signature that came out equal. -/
+/-- **`verified` means what it says.**  `verified` is the C++ member `m_serverVerified`, read through the public
+`QXmppSaslClient::serverVerified()`; the harness prints that value after every `respond()` call and the
+correspondence compares it with the model's (`v=0/1` in each observation), so this is a statement about an
+observable, not about model-internal bookkeeping: it can only become true by a step-2 comparison of the presented
+`v=` value with the expected signature that came out equal. -/
 theorem scram_verified_only_by_comparison (C : Crypto) (cr : Cred) (s : ScramSt) (ch : Bytes)
     (h : (scramStep C cr s ch).1.verified = true) :
     s.verified = true ∨ (s.step = 2 ∧ Base64.decodeLenient (gs2Get (parseGS2 ch) 118) = s.serverSig) := by
@@ -173,21 +187,40 @@ theorem scram_verified_only_by_comparison (C : Crypto) (cr : Cred) (s : ScramSt)
 /-! ## DIGEST-MD5 -/
 
 /-- **`calculateDigest` is the RFC 2831 §2.1.2.1 response-value** (`method = AUTHENTICATE`) **and the §2.1.3 rspauth value**
-(`method` empty), once the secret is `H(user:realm:passwd)`: the two arrangements of the same concatenations agree. -/
-theorem digest_formula_is_rfc2831 (md5 : Bytes → Bytes) (method uri user realm pass nonce cnonce nc : Bytes) :
+(`method` empty), once the secret is `H(user:realm:passwd)` — **for user name, realm and password that are their own
+RFC 2831 hash encoding** (`Ref.digestEnc x = x`: pure ASCII, `digestEnc_ascii`, or containing a character beyond
+U+00FF).  The hypothesis cannot be dropped: the code hashes the UTF-8 bytes, the RFC prescribes ISO 8859-1 for strings
+representable in it — `C06_defect_digest_latin1_hashed_as_utf8`. -/
+theorem digest_formula_is_rfc2831 (md5 : Bytes → Bytes) (method uri user realm pass nonce cnonce nc : Bytes)
+    (hu : Ref.digestEnc user = user) (hr : Ref.digestEnc realm = realm) (hp : Ref.digestEnc pass = pass) :
     calculateDigest md5 method uri (md5 (user ++ 58 :: (realm ++ 58 :: pass))) nonce cnonce nc
       = Ref.responseValue md5 method user realm pass nonce cnonce nc uri := by
-  simp [calculateDigest, Ref.responseValue, Ref.KD, Ref.HEX, Ref.A1, Ref.A2, sAuthColon]
+  simp [calculateDigest, Ref.responseValue, Ref.KD, Ref.HEX, Ref.A1, Ref.A2, sAuthColon, hu, hr, hp]
+
+/-- **Today's code hashes ISO 8859-1 representable credentials as UTF-8**: for the user name `é` (UTF-8 `C3 A9`) the
+value `calculateDigest` produces is not the RFC 2831 response-value (which hashes the single byte `E9`); witness with
+`md5 := id`, everything else empty. A conforming server (e.g. one sharing its hashed-secret database with HTTP
+digest, the reason the RFC gives) rejects such a login. -/
+theorem C06_defect_digest_latin1_hashed_as_utf8 :
+    ¬ ∀ (md5 : Bytes → Bytes) (method uri user realm pass nonce cnonce nc : Bytes),
+        calculateDigest md5 method uri (md5 (user ++ 58 :: (realm ++ 58 :: pass))) nonce cnonce nc
+          = Ref.responseValue md5 method user realm pass nonce cnonce nc uri := by
+  intro h
+  have := h id [] [] [195, 169] [] [] [] [] []
+  revert this
+  decide
 
 /-- **The digest-response is the one RFC 2831 prescribes and a conforming server accepts it.**  For every credential
 and every challenge the client answers (it carries a nonce; `auth` is among the offered qop values, or none is
 offered): the response is the serialization of a directive list whose `response` is the RFC response-value for
 (user, realm of the challenge, password, nonce, cnonce, nc=00000001, digest-uri); an RFC 2831 server that issued
 this nonce/realm and holds the same password accepts that list, and the `rspauth` it answers with is exactly the
-value the client will insist on in the next step. -/
+value the client will insist on in the next step.  Hypotheses `hu hr hp`: see `digest_formula_is_rfc2831`. -/
 theorem digest_response_is_rfc2831 (md5 : Bytes → Bytes) (cr : Cred) (s : DigestSt) (ch nonce : Bytes)
     (hstep : s.step = 1) (hn : mapGet? (parseMessage ch) kNonce = some nonce)
-    (hq : (splitOn 44 ((mapGet? (parseMessage ch) kQop).getD sAuth)).contains sAuth = true) :
+    (hq : (splitOn 44 ((mapGet? (parseMessage ch) kQop).getD sAuth)).contains sAuth = true)
+    (hu : Ref.digestEnc cr.user = cr.user) (hr : Ref.digestEnc (mapGet (parseMessage ch) kRealm) = mapGet (parseMessage ch) kRealm)
+    (hp : Ref.digestEnc cr.pass = cr.pass) :
     (digestStep md5 cr s ch).2
         = some (serializeMessage (digestOutput md5 cr (mapGet (parseMessage ch) kRealm) nonce
             (md5 (cr.user ++ 58 :: (mapGet (parseMessage ch) kRealm ++ 58 :: cr.pass)))))
@@ -207,12 +240,12 @@ theorem digest_response_is_rfc2831 (md5 : Bytes → Bytes) (cr : Cred) (s : Dige
             (md5 (cr.user ++ 58 :: (mapGet (parseMessage ch) kRealm ++ 58 :: cr.pass)))))) := by
     simp [digestStep, hstep, hn, hq']
   rw [hstepEq]
-  generalize mapGet (parseMessage ch) kRealm = realm
+  generalize mapGet (parseMessage ch) kRealm = realm at hr ⊢
   obtain ⟨g1, g2, g3, g4, g5, g6, g7, g8⟩ := digestOutput_gets md5 cr realm nonce (md5 (cr.user ++ 58 :: (realm ++ 58 :: cr.pass)))
   refine ⟨rfl, ?_, ?_⟩
-  · rw [g8, digest_formula_is_rfc2831]
+  · rw [g8, digest_formula_is_rfc2831 _ _ _ _ _ _ _ _ _ hu hr hp]
   · simp only [Ref.digestServerRspauth, mapGet, g1, g2, g3, g4, g5, g6, g7, g8, Option.getD_some]
-    rw [digest_formula_is_rfc2831, digest_formula_is_rfc2831]
+    rw [digest_formula_is_rfc2831 _ _ _ _ _ _ _ _ _ hu hr hp, digest_formula_is_rfc2831 _ _ _ _ _ _ _ _ _ hu hr hp]
     simp [sAuth, sNc1, sAuthenticate]
 
 /-- **A wrong `rspauth` is refused**: in step 2 the client answers (with the empty response) exactly when the
@@ -240,14 +273,15 @@ theorem digest_rejects_bad_challenge (md5 : Bytes → Bytes) (cr : Cred) (s : Di
 /-- **Exact condition for a server holding another password**: it accepts the client's directive list iff its own
 RFC response-value for that password equals the one the client sent.  With `pass' ≠ pass` this is an MD5
 collision-type event (named assumption, not provable for an arbitrary `md5`); exercised by the oracle. -/
-theorem digest_other_password_condition_partial (md5 : Bytes → Bytes) (cr : Cred) (realm nonce pass' : Bytes) :
+theorem digest_other_password_condition_partial (md5 : Bytes → Bytes) (cr : Cred) (realm nonce pass' : Bytes)
+    (hu : Ref.digestEnc cr.user = cr.user) (hr : Ref.digestEnc realm = realm) (hp : Ref.digestEnc cr.pass = cr.pass) :
     ((Ref.digestServerRspauth md5 cr.user realm pass' nonce (digestUriOf cr)
         (digestOutput md5 cr realm nonce (md5 (cr.user ++ 58 :: (realm ++ 58 :: cr.pass))))).isSome = true
       ↔ Ref.responseValue md5 sAuthenticate cr.user realm pass' nonce cr.cnonce sNc1 (digestUriOf cr)
           = Ref.responseValue md5 sAuthenticate cr.user realm cr.pass nonce cr.cnonce sNc1 (digestUriOf cr)) := by
   obtain ⟨g1, g2, g3, g4, g5, g6, g7, g8⟩ := digestOutput_gets md5 cr realm nonce (md5 (cr.user ++ 58 :: (realm ++ 58 :: cr.pass)))
   simp only [Ref.digestServerRspauth, mapGet, g1, g2, g3, g4, g5, g6, g7, g8, Option.getD_some]
-  rw [digest_formula_is_rfc2831]
+  rw [digest_formula_is_rfc2831 _ _ _ _ _ _ _ _ _ hu hr hp]
   simp only [sAuth, sNc1, sAuthenticate, true_and, Option.some.injEq]
   constructor
   · intro h; split at h
@@ -387,6 +421,23 @@ theorem success_data_is_verified (C : Crypto) (md5 : Bytes → Bytes) (cr : Cred
     cases hs2 : st.sasl2 <;>
       simp [mgrStep, hp, hm, mechVerified, hv, hs2, mechRespond, h2]
 
+/- Full statement for DIGEST-MD5 (FALSE on today's code): for every server script, result = success and mechanism
+   DIGEST-MD5 → `serverProofSeen` (the client reached step 3, i.e. `digest_rspauth_checked` accepted `rspauth`). -/
+
+/-- **Today's managers report a DIGEST-MD5 login as successful although the server never presented `rspauth`**
+(RFC 2831 §2.1.3; both managers): `QXmppSaslClientDigestMd5` keeps the default `serverVerified() = true`, so after the
+digest-response a bare `<success/>` — or one carrying a wrong `rspauth` — finishes with success while the client is
+still in step 2.  Witness: challenge `nonce="abc",qop="auth"`, then `<success/>`. -/
+theorem C06_defect_digest_success_without_rspauth (sasl2 : Bool) :
+    ¬ ∀ (C : Crypto) (md5 : Bytes → Bytes) (cr : Cred) (els : List El),
+        (mgrRun C md5 cr (mgrStart C md5 cr sasl2 .digest).1 els).1.result = some .success →
+        serverProofSeen (mgrRun C md5 cr (mgrStart C md5 cr sasl2 .digest).1 els).1.mech = true := by
+  intro h
+  have := h toyCrypto id toyCred
+    [.challenge [110, 111, 110, 99, 101, 61, 34, 97, 98, 99, 34, 44, 113, 111, 112, 61, 34, 97, 117, 116, 104, 34], .success none]
+  revert this
+  cases sasl2 <;> decide
+
 /-- **A refused challenge ends the attempt with an error, never with success**: whatever the mechanism, when
 `respond` returns nothing the task is finished with "Could not respond to SASL challenge" and later elements
 (including `<success/>`) are rejected. -/
@@ -437,6 +488,11 @@ example : mapGet? (parseMessage [110, 111, 110, 99, 101, 61, 34, 97, 98, 99, 34,
     = some [97, 98, 99] := by decide
 example : (splitOn 44 ((mapGet? (parseMessage [110, 111, 110, 99, 101, 61, 34, 97, 98, 99, 34, 44, 113, 111, 112, 61, 34, 97, 117, 116, 104, 34])
     kQop).getD sAuth)).contains sAuth = true := by decide
+
+/-- the RFC 2831 hash encoding: ASCII and strings with a character beyond U+00FF are left alone (the hypotheses
+`Ref.digestEnc x = x` of the DIGEST theorems), `é` becomes the single byte E9 -/
+example : Ref.digestEnc [117, 115, 101, 114] = [117, 115, 101, 114] ∧ Ref.digestEnc [208, 191, 195, 169] = [208, 191, 195, 169]
+    ∧ Ref.digestEnc [114, 195, 169] = [114, 233] := by decide
 
 /-- a two-entry map with a quote and a space in its values satisfies the hypotheses of `digest_parse_serialize`
 (and, evaluated, does round-trip) -/
